@@ -1,6 +1,7 @@
 package main
 
 import (
+	"fmt"
 	"go/token"
 	"os"
 	"sort"
@@ -199,6 +200,9 @@ func runC09(c *Ctx) {
 			okKey, extra := false, ""
 			w.WithAccess(home, a, func(f *Facts) {
 				okKey = strings.Contains(w.Expr(call.Common().Args[1]), "Marshal>(p1)")
+				if os.Getenv("YV_DEBUG") == "c09del" {
+					fmt.Fprintln(os.Stderr, "C09 del:", shortFn(home), shortFn(remove), w.Expr(call.Common().Args[1]), a.Site, a.Via)
+				}
 				c.Check(home == remove && okKey, "R4.maintenance", "remove|cache entry dropped with the key", w.Pos(a.Instr.Pos()), "delete(cache, hash(key.Marshal())) in the removal helper", "the cache entry deleted is not the removed key's")
 				// gating: only the mode flag and the success of the removal may gate the delete
 				gate := f.Primary(a.Instr.Block())
